@@ -380,24 +380,125 @@ def gen_steps(rng, coords, swap, vertex_stream):
     return out
 
 
+def tie_closing_polygon(rng):
+    """first and last vertex share exactly ONE coordinate and the closing edge last -> first is the
+    upper boundary (axis 1, seen with swap_axis=False) or the right boundary (axis 0, the upper one
+    with swap_axis=True): the closing edge is then the only edge carrying the top ordinate"""
+    pts = star_polygon(rng, n=rng.choice([4, 5, 6, 8, 12]))
+    r = rng.randrange(len(pts))
+    pts = pts[r:] + pts[:r]
+    axis = rng.choice([0, 1])
+    vals = [p[axis] for p in pts]
+    ext = (max(vals) - min(vals)) or 1.0
+    v = max(vals) + rng.uniform(0.05, 0.6) * ext if rng.random() < 0.8 else rng.uniform(min(vals), max(vals))
+    if rng.random() < 0.3:
+        v = round(v, 1)
+    pts[0][axis] = v
+    pts[-1][axis] = v
+    other = 1 - axis
+    if pts[0][other] == pts[-1][other]:
+        pts[-1][other] += 0.25 * ext
+    swap = (axis == 0) if rng.random() < 0.8 else (rng.random() < 0.5)
+    lo, hi = sorted([pts[0][other], pts[-1][other]])
+    r2 = rng.random()
+    if r2 < 0.2:
+        steps = None
+    elif r2 < 0.35:
+        steps = rng.choice([3, 5, 10, 20])
+    else:
+        steps = sorted(rng.uniform(lo + 0.02 * (hi - lo), hi - 0.02 * (hi - lo)) for _ in range(rng.randrange(1, 4)))
+        if rng.random() < 0.4:
+            allv = [p[other] for p in pts]
+            steps.append(rng.uniform(min(allv), max(allv)))
+    return pts, swap, steps
+
+
+def rectilinear_polygon(rng):
+    """staircase / U-shaped polygons on a common grid: vertical AND horizontal edges, so that a
+    requested abscissa can sit exactly on an interior vertical edge (an exactly parallel candidate pair
+    with overlapping boxes) while other edges are crossed in their interior"""
+    if rng.random() < 0.7:
+        k = rng.randrange(2, 5)
+        ws = sorted(rng.sample(range(1, 9), k - 1), reverse=True)
+        W = ws[0] + rng.randrange(1, 4)
+        hs = sorted(rng.sample(range(1, 9), k))
+        pts = [[0, 0], [W, 0], [W, hs[0]]]
+        for i, w in enumerate(ws):
+            pts += [[w, hs[i]], [w, hs[i + 1]]]
+        pts.append([0, hs[-1]])
+    else:
+        c, e, a = sorted(rng.sample(range(1, 10), 3))
+        a += 1
+        b, d = sorted(rng.sample(range(1, 8), 2))
+        pts = [[0, 0], [a, 0], [a, d], [e, d], [e, b], [c, b], [c, d], [0, d]]
+    sc = rng.choice([1.0, 0.5, 0.25, 2.0])
+    ox, oy = rng.choice([0, 0, 3, -2, -20]), rng.choice([0, 0, 1, 5, -3, -30])
+    if rng.random() < 0.3:
+        pts = [[y, x] for x, y in pts]
+    if rng.random() < 0.3:
+        pts = [[-x, y] for x, y in pts]
+    if rng.random() < 0.3:
+        pts = [[x, -y] for x, y in pts]
+    pts = [[float(sc * (x + ox)), float(sc * (y + oy))] for x, y in pts]
+    r = rng.randrange(len(pts))
+    pts = pts[r:] + pts[:r]
+    if rng.random() < 0.5:
+        pts.reverse()
+    swap = rng.random() < 0.5
+    pp = [(p[1], p[0]) if swap else (p[0], p[1]) for p in pts]
+    xs = [p[0] for p in pp]
+    edge_x = sorted({a[0] for a, b in zip(pp, pp[1:] + pp[:1]) if a[0] == b[0] and min(xs) < a[0] < max(xs)})
+    steps = [rng.choice(edge_x) for _ in range(rng.randrange(1, 3))] if edge_x else []
+    steps += [rng.uniform(min(xs), max(xs)) for _ in range(rng.randrange(0, 3))]
+    if rng.random() < 0.3:
+        steps.append(min(xs) + 0.5 * sc)
+    rng.shuffle(steps)
+    return pts, swap, steps
+
+
 def gen_dc_case(ctx, rng, k, n_real):
     vertex_stream = False
+    forced = None
     if k < n_real:
         kind, coords = real_contour(ctx, rng, k)
     else:
         r = rng.random()
-        if r < 0.15:
+        if r < 0.12:
             kind, coords = "convex", star_polygon(rng, convex=True)
-        elif r < 0.75:
+        elif r < 0.58:
             kind, coords = "star", star_polygon(rng)
+        elif r < 0.70:
+            kind = "tie-closing"
+            coords, sw, st = tie_closing_polygon(rng)
+            forced = (sw, st)
+        elif r < 0.82:
+            kind = "rectilinear"
+            coords, sw, st = rectilinear_polygon(rng)
+            forced = (sw, st)
+            vertex_stream = True
         else:
             kind, coords = "star-rounded", star_polygon(rng, n=rng.choice([4, 5, 6, 8, 10]), decimals=rng.choice([0, 1]))
             vertex_stream = rng.random() < 0.7
+    if forced is not None:
+        return {"kind": kind, "coords": coords, "swap": forced[0], "steps": forced[1], "vertex_stream": vertex_stream}
     swap = rng.random() < 0.4
     if kind in ("IFORM", "ISORM", "DirectSampling") and rng.random() < 0.15:
         vertex_stream = True
     return {"kind": kind, "coords": coords, "swap": swap, "steps": gen_steps(rng, coords, swap, vertex_stream),
             "vertex_stream": vertex_stream}
+
+
+def grid_walk(rng, n):
+    """polyline on the integer grid with steps from a small set of directions (many exactly parallel segments)"""
+    dirs = [(1, 1), (1, -1), (2, 1), (1, 2), (2, -1), (1, 0), (0, 1), (-1, 1), (-1, -1), (0, -1), (-2, 1), (3, 1)]
+    x, y = rng.randrange(0, 5), rng.randrange(0, 5)
+    pts = [[x, y]]
+    for _ in range(n - 1):
+        dx, dy = rng.choice(dirs)
+        m = rng.choice([1, 1, 2, 3])
+        x, y = x + m * dx, y + m * dy
+        pts.append([x, y])
+    return pts
 
 
 def polyline(rng, n, box, lattice):
@@ -411,7 +512,15 @@ def polyline(rng, n, box, lattice):
 
 
 def gen_ix_case(rng):
-    mode = rng.choice(["walk", "walk", "walk", "graphs", "lattice", "polygon-line"])
+    mode = rng.choice(["walk", "walk", "walk", "graphs", "lattice", "polygon-line", "grid-offset", "grid-offset"])
+    if mode == "grid-offset":
+        # both polylines on one grid, the second shifted by half a cell: exactly parallel segments with
+        # overlapping boxes are frequent, crossings are (mostly) not at segment ends
+        off = rng.choice([(0.5, 0.0), (0.0, 0.5), (0.5, 0.5), (0.5, 0.25)])
+        c1 = grid_walk(rng, rng.randrange(3, 9))
+        c2 = [[px + off[0], py + off[1]] for px, py in grid_walk(rng, rng.randrange(3, 9))]
+        sc = rng.choice([1.0, 1.0, 0.5, 4.0])
+        return {"kind": mode, "c1": [[float(sc * a), float(sc * b)] for a, b in c1], "c2": [[float(sc * a), float(sc * b)] for a, b in c2]}
     if mode == "walk":
         box = rng.choice([(0, 1), (-5, 5), (100, 101), (-1e-3, 1e-3)])
         return {"kind": mode, "c1": polyline(rng, rng.randrange(2, 12), box, False), "c2": polyline(rng, rng.randrange(2, 12), box, False)}
@@ -561,6 +670,15 @@ def run(ctx):
         {"kind": "corpus", "coords": [[0, 0], [2, 1], [4, 0], [3, 2], [4, 4], [2, 3], [0, 4], [1, 2]], "swap": False, "steps": [0.5, 3.5], "vertex_stream": False},
         {"kind": "corpus", "coords": [[0, -10], [2, -9], [3, -7], [1, -8]], "swap": False, "steps": [0.5, 1.5, 2.5], "vertex_stream": False},
         {"kind": "corpus", "coords": [[0, -10], [2, -9], [3, -7], [1, -8]], "swap": True, "steps": None, "vertex_stream": False},
+        # first and last vertex tie in one coordinate, the closing edge is the upper boundary
+        {"kind": "corpus", "coords": [[1, 4], [0, 1], [6, 1], [5, 4]], "swap": False, "steps": [2.0, 3.5], "vertex_stream": False},
+        {"kind": "corpus", "coords": [[4, 1], [1, 0], [1, 6], [4, 5]], "swap": True, "steps": [2.0, 3.5], "vertex_stream": False},
+        # abscissa exactly on an interior vertical edge (singular candidate pair) while another edge is crossed inside
+        {"kind": "corpus", "coords": [[0, 0], [4, 0], [4, 2], [2, 2], [2, 4], [0, 4]], "swap": False, "steps": [2.0, 1.0], "vertex_stream": True},
+        {"kind": "corpus", "coords": [[0, 0], [4, 0], [4, 2], [2, 2], [2, 4], [0, 4]], "swap": True, "steps": [2.0, 3.0], "vertex_stream": True},
+    ]
+    ix_cases += [
+        {"kind": "corpus", "c1": [[0.0, 0.0], [2.0, 2.0], [4.0, 0.0]], "c2": [[0.5, 0.0], [2.5, 2.0], [2.5, -1.0]]},
     ]
     dc_res = [run_dc(vu, c) for c in dc_cases]
     ix_res = [run_ix(vi, c) for c in ix_cases]
